@@ -23,12 +23,14 @@ package lnwallet
 //@   let ourAfter   = ourBalance + ite(isInitiator, delta, 0) - ite(payerLoc, coopCloseFee, 0)
 //@   let theirAfter = theirBalance + ite(isInitiator, 0, delta) - ite(payerRem, coopCloseFee, 0)
 //@   requires 0 <= ourBalance && ourBalance <= 2100000000000000 && 0 <= theirBalance && theirBalance <= 2100000000000000
-//@   requires 0 <= commitFee && commitFee <= 2100000000000000 && 0 <= coopCloseFee && coopCloseFee <= 2100000000000000
+//@   requires 0 <= commitFee && commitFee <= 2100000000000000
+//@   // the fee comes off the wire: any 64-bit value, a set top bit shows up as a negative amount (finding F18) and is refused
+//@   ensures  coopCloseFee < 0 ==> result2 != nil
 //@   ensures  result2 == nil ==> result0 == ourAfter && result1 == theirAfter
 //@   ensures  result2 == nil ==> result0 >= 0 && result1 >= 0
 //@   ensures  result2 == nil && (!feePayer.isSome || feePayer.some <= 1) ==>
 //@            result0 + result1 == ourBalance + theirBalance + delta - coopCloseFee
-//@   ensures  result2 != nil <==> (ourAfter < 0 || theirAfter < 0)
+//@   ensures  result2 != nil <==> (coopCloseFee < 0 || ourAfter < 0 || theirAfter < 0)
 //@   nowrap
 //@
 //@ func CreateCooperativeCloseTx
@@ -44,7 +46,7 @@ package lnwallet
 //@   loop * havoc
 //@   requires lc.channelState.LocalCommitment.LocalBalance <= 2100000000000000000 && lc.channelState.LocalCommitment.RemoteBalance <= 2100000000000000000
 //@   requires 0 <= lc.channelState.LocalCommitment.CommitFee && lc.channelState.LocalCommitment.CommitFee <= 2100000000000000
-//@   requires 0 <= proposedFee && proposedFee <= 2100000000000000
+//@   // proposedFee: any 64-bit amount (it can come straight off the wire)
 //@   site call CoopCloseBalance: assert arg(coopCloseFee) == proposedFee &&
 //@        arg(isInitiator) == lc.channelState.IsInitiator && arg(chanType) == lc.channelState.ChanType &&
 //@        arg(ourBalance) == fdiv(lc.channelState.LocalCommitment.LocalBalance, 1000) &&
@@ -60,7 +62,7 @@ package lnwallet
 //@   loop * havoc
 //@   requires lc.channelState.LocalCommitment.LocalBalance <= 2100000000000000000 && lc.channelState.LocalCommitment.RemoteBalance <= 2100000000000000000
 //@   requires 0 <= lc.channelState.LocalCommitment.CommitFee && lc.channelState.LocalCommitment.CommitFee <= 2100000000000000
-//@   requires 0 <= proposedFee && proposedFee <= 2100000000000000
+//@   // proposedFee: any 64-bit amount (it can come straight off the wire)
 //@   site call CoopCloseBalance: assert arg(coopCloseFee) == proposedFee &&
 //@        arg(isInitiator) == lc.channelState.IsInitiator && arg(chanType) == lc.channelState.ChanType &&
 //@        arg(ourBalance) == fdiv(lc.channelState.LocalCommitment.LocalBalance, 1000) &&
